@@ -2,6 +2,8 @@
 Channel `expand` (C06): one op = the token list of an infix block.
   expand tree <spacing> <tok>…   -> statements of `(infixExpand {…})`, canonical, joined by " | "; `err`
   expand val  <spacing> <tok>… => <prefix form codes>   (second phase, see checks/C06.py)
+  expand htree <hist> <spacing> <tok>…  -> as `tree` + ` ## ids-ok`; the history is not an argument of model or spec
+  expand hval  <hist> <spacing> <tok>… => <codes>         (second phase under interference histories, checks/C06.py)
 Token words: s:NAME sym, d:NAME dot-symbol, l:NAME `NAME:`, n:TEXT literal, o:TEXT unhandled
 literal, `,` `;` `{}`; `[ … ]` array, `( … )` list, `{ … }` nested infix block.
 Model column: Model/Pratt.lean with the regenerated table. Spec column: Spec/Stratified.lean
@@ -195,6 +197,19 @@ def handle (toks : List String) : String :=
       let m := showStmts (expandBlock Table.generated ts)
       let s := if usesSpecial ts || !Stratified.inScope Stratified.documented ts then "-" else showStmts (Stratified.parseBlock Stratified.documented ts)
       s!"{m}\t{s}"
+    | none => "bad-op\t-"
+  | "htree" :: _hist :: _sp :: ws =>
+    -- INTERFERENCE HISTORIES. `_hist` (which other interpreters were created and used in the process before A
+    -- expands the block) is deliberately NOT an argument of the model or of the specification: the expansion is a
+    -- function of the token list alone (`Stratified.parseBlock documented ts`), and it is built from A's OWN
+    -- symbols (`ids-ok`: each symbol carries the number A gives to its name). The implementation column is
+    -- produced under the history; impl ≠ spec is a failing history.
+    match parseItems (ws.length + 1) ws none with
+    | some (ts, _) =>
+      let ids (s : String) : String := if s == "err" || s == "-empty-" || s == "-" then s else s ++ " ## ids-ok"
+      let m := showStmts (expandBlock Table.generated ts)
+      let s := if usesSpecial ts || !Stratified.inScope Stratified.documented ts then "-" else showStmts (Stratified.parseBlock Stratified.documented ts)
+      s!"{ids m}\t{ids s}"
     | none => "bad-op\t-"
   | _ => "bad-op\t-"
 
